@@ -1,9 +1,11 @@
 (* Correspondence + monitors for C14, evaluated by the generated cases files.
 
    CBlock: one block of one generated history executed in N separate OS processes (Go
-           randomises map iteration per process and per range statement). The monitors are the
-           property statement on the observed digests: app hash, transaction results, events
-           byte-identical on every run.
+           randomises map iteration per process and per range statement); some of the processes
+           are fresh, the others have run a different chain (other validator count, other
+           replication factor, shard-index queries) before, so that process-local state differs.
+           The monitors are the property statement on the observed digests: app hash,
+           transaction results, events, DA fault counters identical on every run and node.
    CTally: the real Keeper.Tally on real staking/vote state against the model built from the
            loop step functions the theorems are about.
    CDa:    one CHALLENGING item resolved by the real EndBlocker against da_resolve. *)
@@ -54,13 +56,13 @@ Definition da_corr (c : da_ctx) (entries : list (Z * Z)) (invs : list (list Z)) 
   end.
 
 Inductive c14_case :=
-| CBlock (height : Z) (apphash results events : list Z)     (* one digest per process *)
+| CBlock (height : Z) (apphash results events faults : list Z)     (* one digest per process *)
 | CTally (bonded : list (Z * Z * Z)) (votes : list gvote) (total_bonded : Z) (obs : res (list (Z * Z)))
 | CDa (c : da_ctx) (entries : list (Z * Z)) (invs : list (list Z)) (counters0 : list (Z * Z)) (o : da_obs).
 
 Definition c14_check (c : c14_case) : list Z :=
   match c with
-  | CBlock _ a r e => flag 1 (all_same a) ++ flag 2 (all_same r) ++ flag 3 (all_same e)
+  | CBlock _ a r e f => flag 1 (all_same a) ++ flag 2 (all_same r) ++ flag 3 (all_same e) ++ flag 4 (all_same f)
   | CTally b v t o => flag 0 (tally_corr (gauge_tally b v t) o)
   | CDa c en invs c0 o => flag 0 (da_corr c en invs c0 o)
   end.
